@@ -166,8 +166,21 @@ fn scale2(op: &str, x: f64, y: f64, v: Option<f64>) -> f64 {
     let r = v.map_or(0.0, f64::abs);
     match op { "add" | "subtract" => x.abs() + y.abs(), "fmod" | "remainder" | "mod" => x.abs().max(r), _ => r }
 }
+/// operations whose integer instances are "the f64 function, converted back" (judged against the reference also for
+/// integer element types; seeded change C04i: subtract on unsigned types)
+const INT_REF2: [&str; 4] = ["add", "subtract", "multiply", "hypot"];
+const INT_REF1: [&str; 12] = ["positive", "negative", "abs", "absolute", "fabs", "square", "sqrt", "cbrt", "exp", "exp2", "floor", "ceil"];
 fn ref_tag<N>() -> &'static str { if std::any::type_name::<N>() == "f32" { "ref32" } else { "ref" } }
 fn is_float<N>() -> bool { matches!(std::any::type_name::<N>(), "f64" | "f32") }
+/// reference for an INTEGER element type: the f64 reference converted the way the library converts (truncation,
+/// saturation); not judged when the reference is not finite or lies within 1e-9 of an integer (where an accurate
+/// but different algorithm may truncate to the neighbouring value)
+fn iref<N: Numeric + Lab>(v: Option<f64>) -> String {
+    match v {
+        Some(v) if v.is_finite() && v.abs() < 9e15 && (v == v.round() || (v - v.round()).abs() > 1e-9 * v.abs().max(1.0)) => N::from(v).to_lab(),
+        _ => "?".into(),
+    }
+}
 fn fref(v: Option<f64>) -> String {
     match v { None => "?".into(), Some(v) if v.is_nan() => "nan".into(), Some(v) => format!("f{:016x}", v.to_bits()) }
 }
@@ -187,6 +200,10 @@ fn ew2<N: Elem>(pool: bool, op: &str, args: &[Arg]) -> Option<String> {
             let (xf, yf) = (N::conv(pool, x).to_f64(), N::conv(pool, y).to_f64());
             let v = ref2(op, xf, yf, std::any::type_name::<N>() == "f32");
             rf.push(format!("{x}/{y}={}~{}", fref(v), fref(Some(scale2(op, xf, yf, v)))));
+        } else if INT_REF2.contains(&op) {
+            // integer element types: the arithmetic family is evaluated in double precision and converted back
+            let (xf, yf) = (N::conv(pool, x).to_f64(), N::conv(pool, y).to_f64());
+            rf.push(format!("{x}/{y}={}", iref::<N>(ref2(op, xf, yf, false))));
         }
     } }
     Some(format!("{}|tbl({})|{}({})", res_arr(&r), tbl.join(";"), ref_tag::<N>(), rf.join(";")))
@@ -203,6 +220,7 @@ fn ew1<N: SignBit>(pool: bool, op: &str, args: &[Arg]) -> Option<String> {
         let v = single_val(call1(op, &Array::single(N::conv(pool, x)).unwrap())?);
         tbl.push(format!("{x}={v}"));
         if is_float::<N>() { rf.push(format!("{x}={}", fref(ref1(op, N::conv(pool, x).to_f64())))); }
+        else if INT_REF1.contains(&op) { rf.push(format!("{x}={}", iref::<N>(ref1(op, N::conv(pool, x).to_f64())))); }
     }
     Some(format!("{}|tbl({})|{}({})", res_arr(&r), tbl.join(";"), ref_tag::<N>(), rf.join(";")))
 }
